@@ -193,6 +193,8 @@ type FuncVerifier struct {
 	entryParams    map[types.Object]Term
 	bindErrors     []string
 	globalWrites   []string
+	mapRangeDepth  int      // > 0 while the body of a loop whose order is MAP ORDER is being executed
+	orderLeaks     []string // user code / effectful iterators run from inside such a loop (for `ordered`)
 	globalReads    map[string]bool
 	yieldVar       *types.Var
 	litElems       map[string][]Term // literal sequences introduced by namedSeqLit (packed variadic arguments): their elements
@@ -1047,6 +1049,10 @@ func (fv *FuncVerifier) convert(st *State, v Term, from, to types.Type) Term {
 		if v.Sort == SRef {
 			if _, isPtr := from.Underlying().(*types.Pointer); isPtr {
 				st.Assume(fv.typeInv(v, from))
+			}
+			if _, isStruct := from.Underlying().(*types.Struct); isStruct {
+				// a struct VALUE (modelled as an opaque reference) boxed into an interface is never the nil interface
+				st.Assume(Not(App(SBool, "=", v, Null)))
 			}
 			return v
 		}
